@@ -1,6 +1,7 @@
 #!/bin/bash
 # usage: tryseed.sh <patch.diff> <property> [more properties...]; applies the patch to /repo, runs the quick checks, reverts.
 p=$1; shift
+if [ -n "$(git -C /repo status --porcelain)" ]; then echo "REFUSED: /repo has uncommitted changes (commit the contract sync first)"; exit 4; fi
 git -C /repo apply "$p" || { echo "APPLY FAILED $p"; exit 3; }
 for id in "$@"; do
   /verif/bin/govc check -property $id -no-evidence 2>&1 | grep -E "VIOLATION|UNDECIDED|ERROR|KNOWN|property=" | cut -c1-400
